@@ -1,0 +1,102 @@
+//go:build verif
+
+package token
+
+import (
+	"encoding/json"
+	"sort"
+	"testing"
+	"time"
+
+	"github.com/gotid/god/internal/verifc04"
+	"github.com/gotid/god/internal/verifdrv"
+	"github.com/gotid/god/lib/timex"
+)
+
+type verifReq struct {
+	Tok     int    `json:"tok"`     // index into tokens, -1 = no Authorization header
+	Scheme  string `json:"scheme"`  // prefix put before the token text
+	Advance int64  `json:"advance"` // seconds the virtual clock moves before the request
+}
+
+type verifCase struct {
+	Secret  string               `json:"secret"`
+	Prev    string               `json:"prev"`
+	Secrets []string             `json:"secrets"` // universe tabulated by the oracle
+	Reset   *int64               `json:"reset"`   // seconds; nil = default reset duration
+	Tokens  []verifc04.TokenSpec `json:"tokens"`
+	Reqs    []verifReq           `json:"reqs"`
+}
+
+type verifCount struct {
+	Secret string `json:"secret"`
+	Count  uint64 `json:"count"`
+}
+
+func verifDump(p *Parser) []verifCount {
+	out := []verifCount{}
+	p.history.Range(func(k, v any) bool {
+		out = append(out, verifCount{Secret: k.(string), Count: *v.(*uint64)})
+		return true
+	})
+	sort.Slice(out, func(i, j int) bool { return out[i].Secret < out[j].Secret })
+	return out
+}
+
+// TestVerifDriver drives one Parser through a history of requests on the virtual clock and dumps
+// the per-secret hit counters after every request; the jwt library's own verdict per
+// (header, secret) is tabulated next to it.
+func TestVerifDriver(t *testing.T) {
+	verifdrv.Run(t, func(raw json.RawMessage) any {
+		var c verifCase
+		if err := json.Unmarshal(raw, &c); err != nil {
+			return map[string]any{"error": err.Error()}
+		}
+		timex.VerifSetNow(time.Hour)
+		defer timex.VerifClockOff()
+		wall := time.Now()
+		texts := make([]string, len(c.Tokens))
+		for i, ts := range c.Tokens {
+			texts[i] = verifc04.Mint(ts, wall)
+		}
+		var p *Parser
+		if c.Reset != nil {
+			p = NewParser(WithResetDuration(time.Duration(*c.Reset) * time.Second))
+		} else {
+			p = NewParser()
+		}
+		headers := []string{}
+		hidx := map[string]int{}
+		type row struct {
+			Header int          `json:"header"`
+			Now    int64        `json:"now"` // virtual clock (ns) at the request
+			Ok     bool         `json:"ok"`
+			Valid  bool         `json:"valid"`
+			Counts []verifCount `json:"counts"`
+		}
+		rows := []row{}
+		for _, rq := range c.Reqs {
+			timex.VerifAdvance(time.Duration(rq.Advance) * time.Second)
+			h := ""
+			if rq.Tok >= 0 {
+				h = rq.Scheme + texts[rq.Tok]
+			}
+			if _, ok := hidx[h]; !ok {
+				hidx[h] = len(headers)
+				headers = append(headers, h)
+			}
+			tok, err := p.ParseToken(verifc04.Request(h), c.Secret, c.Prev)
+			rows = append(rows, row{Header: hidx[h], Now: int64(timex.Now()), Ok: err == nil,
+				Valid: tok != nil && tok.Valid, Counts: verifDump(p)})
+		}
+		oracle := make([]map[string]verifc04.Verdict, len(headers))
+		for i, h := range headers {
+			oracle[i] = map[string]verifc04.Verdict{}
+			for _, s := range c.Secrets {
+				oracle[i][s] = verifc04.Oracle(h, s)
+			}
+		}
+		return map[string]any{"rows": rows, "oracle": oracle, "nheaders": len(headers),
+			"reset_time": int64(p.resetTime), "reset_dur": int64(p.resetDuration)}
+	})
+}
